@@ -32,7 +32,7 @@ Definition res_matrix (m n : nat) (ms ns : list nat) (res : nat -> list nat -> l
              res (r / (m * n))%nat (((r / n) mod m)%nat :: fst p) ((r mod n)%nat :: snd p).
 
 Fixpoint of_full_aux (thr : option (R -> R -> bool)) (maxr : option nat) (answers : list (svd_ans R))
-         (r : nat) (res : nat -> list nat -> list nat -> R) (ms ns : list nat)
+         (r : nat) (res : nat -> list nat -> list nat -> R) (ms ns : list nat) {struct ms}
   : list core * list (nat * nat * M R) :=
   match ms, ns with
   | [m], [n] => ([mkcore r m n 1 (fun al x y _ => res al [x] [y])], [])
